@@ -68,8 +68,14 @@ def forward(fn, init, transfer, join, edge=None, start=None, max_iter=200000):
         inq.discard(b)
         st = IN[b]
         blk = blocks[b]
+        dead = False
         for n in blk.elems:
             st = transfer(st, n)
+            if st is None:
+                dead = True     # the path ends here (call to a function that never returns)
+                break
+        if dead:
+            continue
         OUT[b] = st
         for (s, cond, truth) in branch_edges(blk):
             if s < 0:
